@@ -336,3 +336,125 @@ def run_rates(chk, thorough=False):
                 for i in range(n - 1):
                     chk.obligation(f"{base}/post.ordered/bin={i}", "post", nonneg_thunk(r[i + 1] - r[i], f"r[{i + 1}] - r[{i}]"),
                                    function=fn, key=f"C05/{fn}/post.ordered", replayer=rep)
+
+
+EXPF = z3.Function("EXP", z3.RealSort(), z3.RealSort())
+SOLVED = "cogent3/evolve/solved_models_numba.py"
+
+
+def _replay_closed_form(model):
+    """native: PredefinedNucleotide.calc_psub_matrix at random points: rows sum to one, P(0) = I, detailed balance"""
+    import random
+
+    import numpy
+
+    from cogent3 import get_model
+    rnd = random.Random(4)
+    with warnings.catch_warnings():
+        warnings.simplefilter("ignore")
+        sm = get_model("TN93", rate_matrix_required=False)
+    for _ in range(60):
+        raw = [rnd.uniform(0.2, 1.0) for _ in range(4)]
+        pi = numpy.array(raw) / sum(raw)
+        ky, kr, t = rnd.uniform(0.2, 8), rnd.uniform(0.2, 8), rnd.choice((0.0, rnd.uniform(0.001, 3)))
+        P = sm.calc_psub_matrix(pi, t, ky, kr)
+        F = pi[:, None] * P
+        bad = abs(P.sum(axis=1) - 1).max() > 1e-9 or abs(F - F.T).max() > 1e-9 or (t == 0.0 and abs(P - numpy.eye(4)).max() > 1e-12) \
+            or P.min() < -1e-12
+        if bad:
+            return {"failed": True, "witness": {"pi": list(map(float, pi)), "kappa_y": ky, "kappa_r": kr, "time": t},
+                    "description": f"closed-form TN93 P(t): rows sum {P.sum(axis=1)!r}, max |pi_i P_ij - pi_j P_ji| {abs(F - F.T).max():.2e}"}
+    return {"failed": False, "description": "closed-form TN93 P(t): row sums, P(0), detailed balance hold at 60 random points"}
+
+
+def run_closed_form(chk, thorough=False):
+    """the closed-form P(t) of the predefined nucleotide models: the python function behind the numba kernel
+    ``calc_TN93_P`` (``.py_func``, the text numba compiles) run on symbolic motif probabilities (summing to one by
+    construction), rate terms and time, with ``math.exp`` an uninterpreted EXP and the kernel's float work arrays replaced by
+    object arrays: every row of P sums to one, pi_i P_ij == pi_j P_ji, and P(0) == I -- as identities in the exponentials."""
+    import numpy
+
+    from cogent3.evolve import solved_models_numba as K
+    from pyvc import concolic as C
+    fn = "evolve.solved_models_numba.calc_TN93_P"
+    chk.function(SOLVED, "calc_TN93_P", "P")
+    chk.assume("C05 closed form: the jitted kernel is represented by its python source (calc_TN93_P.py_func, the text numba "
+               "compiles; numba's compilation is trusted); math.exp is the uninterpreted EXP with EXP(0) = 1; numpy.zeros / "
+               "numpy.array inside the kernel build object arrays so that cells can hold symbolic values")
+    py = getattr(K.calc_TN93_P, "py_func", None)
+    if py is None:
+        chk.undecided.append(f"{fn}: no python source behind the kernel (py_func missing)")
+        return
+    p0, p1, p2 = z3.Reals("pi_T pi_C pi_A")
+    ky, kr, t = z3.Reals("kappa_y kappa_r time")
+    pis = [p0, p1, p2, 1 - p0 - p1 - p2]
+    pre = [p0 > 0, p1 > 0, p2 > 0, pis[3] > 0, ky > 0, kr > 0, t >= 0]
+
+    class FakeMath:
+        @staticmethod
+        def exp(v):
+            import sympy
+
+            from pyvc.algebra import to_sympy
+            term = z3.simplify(C.term(v))
+            if sympy.cancel(to_sympy(term)) == 0:         # EXP(0) = 1 (0 / x is 0 wherever x is not 0)
+                return 1.0
+            return C.Sym(EXPF(term))
+
+    class FakeNP:
+        def __getattr__(self, k):
+            return getattr(numpy, k)
+
+        @staticmethod
+        def zeros(n):
+            return numpy.array([0] * n, dtype=object)
+
+        @staticmethod
+        def array(x):
+            return numpy.array(x, dtype=object)
+
+    def run(time_value):
+        def call():
+            g = py.__globals__
+            saved = g["math"], g["np"]
+            g["math"], g["np"] = FakeMath, FakeNP()
+            try:
+                res = numpy.empty((4, 4), dtype=object)
+                py(numpy.array([C.Sym(x) for x in pis], dtype=object), time_value, C.Sym(ky), C.Sym(kr), res)
+                return res
+            finally:
+                g["math"], g["np"] = saved
+        return C.explore(call, pre)
+    for label, tv in (("t", C.Sym(t)), ("t=0", 0.0)):
+        base = f"{fn}/cfg=({label})"
+        try:
+            paths = run(tv)
+        except Exception as e:
+            chk.undecided.append(f"{base}: the kernel's python source cannot be evaluated on symbolic reals ({type(e).__name__}: {e})")
+            continue
+        if len(paths) != 1 or paths[0].outcome != "return":
+            chk.obligation(f"{base}/noexcept", "noexcept",
+                           lambda ps=paths: ("refuted", "concolic", 0.0, {}, f"{[(p.outcome, str(p.value)[:80]) for p in ps]}"),
+                           function=fn, key=f"C05/{fn}/noexcept", replayer=_replay_closed_form)
+            continue
+        try:
+            P = [[C.term(paths[0].value[i][j]) for j in range(4)] for i in range(4)]
+        except Exception as e:
+            chk.undecided.append(f"{base}: result is not a 4 x 4 matrix of reals ({type(e).__name__}: {e})")
+            continue
+        one, zero = z3.RealVal(1), z3.RealVal(0)
+        if label == "t":
+            for i in range(4):
+                chk.obligation(f"{base}/post.row-sums-to-one/row={i}", "post", identity_thunk(z3.Sum(P[i]), one, f"row {i}"),
+                               function=fn, key=f"C05/{fn}/post.rows", replayer=_replay_closed_form)
+            for i in range(4):
+                for j in range(i + 1, 4):
+                    chk.obligation(f"{base}/post.detailed-balance/cells={i},{j}", "post",
+                                   identity_thunk(pis[i] * P[i][j], pis[j] * P[j][i], f"pi_{i} P_{i}{j} vs pi_{j} P_{j}{i}"),
+                                   function=fn, key=f"C05/{fn}/post.reversible", replayer=_replay_closed_form)
+        else:
+            for i in range(4):
+                for j in range(4):
+                    chk.obligation(f"{base}/post.identity-at-length-zero/cell={i},{j}", "post",
+                                   identity_thunk(P[i][j], one if i == j else zero, f"P(0)[{i},{j}]"),
+                                   function=fn, key=f"C05/{fn}/post.P0", replayer=_replay_closed_form)
